@@ -403,3 +403,62 @@ func VerifC05Compact() {
 	vCheckIncreasing(l2, "after re-running the interrupted compaction")
 	vCover("recompacted")
 }
+
+// VerifC05CrashInRecovery: a second crash, during the recovery from the first.
+// The append workload crashes after its k-th file-system effect; the reopening
+// (New: index checks and rebuilds, removal of leftovers, epoch history repair,
+// checkpoints) crashes after its j-th effect; the next reopening must succeed
+// and satisfy the same oracle as after a single crash. k and j are symbolic.
+func VerifC05CrashInRecovery() {
+	dir := vTempDir()
+	seg := vNondetInt64("segbytes")
+	vAssume(seg >= 40)
+	vAssume(seg <= 200)
+	opts := vOpts(dir, seg)
+	n := vParam("msgs", 2)
+	var e vCrashExpect
+	e.preHW = -1
+	var prevTs int64
+	epoch := uint64(1)
+	k := vNondetInt("crash-after-effect")
+	vAssume(k >= 1)
+	crashed := vCrashRun(func() {
+		l, err := New(opts)
+		vAssert(err == nil, "New succeeds")
+		vCrashAt(k)
+		for i := 0; i < n; i++ {
+			if vChoose(2) == 1 {
+				epoch++
+			}
+			m, st := vDrawMsgC(prevTs, epoch)
+			prevTs = st.Timestamp
+			st.Offset = int64(i)
+			e.attempted = append(e.attempted, st)
+			_, err := l.Append([]*Message{m})
+			vAssert(err == nil, "Append succeeds")
+			e.mustHave = i + 1
+			if vChoose(2) == 1 {
+				l.SetHighWatermark(int64(i))
+				e.preHW = int64(i)
+				vAssert(l.(*commitLog).checkpointHW() == nil, "HW checkpoint succeeds")
+			}
+		}
+	})
+	vAssume(crashed)
+	vKillOthers()
+	vCover("crashed")
+	j := vNondetInt("crash-after-recovery-effect")
+	vAssume(j >= 1)
+	vCrashAt(j)
+	crashedAgain := vCrashRun(func() {
+		o := opts
+		o.Path = dir
+		_, err := New(o)
+		vAssert(err == nil, "reopening the log after a crash succeeds")
+	})
+	vAssume(crashedAgain) // the single-crash case is VerifC05Append's
+	vKillOthers()
+	vCover("crashed-in-recovery")
+	vCrashAt(1 << 40) // no further crash
+	vRecoverAndCheck(dir, opts, e)
+}
